@@ -1,5 +1,6 @@
 import JominiModel.Driver.Util
 import JominiModel.Model.TextReader
+import JominiModel.Model.TextReaderBuf
 import JominiModel.Spec.TextReader
 /-
 ops of property C07 (and the text-reader ops used by C09 / C20); formats in
@@ -49,6 +50,22 @@ def parseCap (s : String) : Option Nat :=
   match s.splitOn "r" with
   | [n] => n.toNat?
   | [n, _] => n.toNat?
+  | _ => none
+
+/-- the contents of a recycled buffer: `16r7b` = sixteen bytes `0x7b`; `16r` = lexically significant junk
+(`"\\{}#= a\n"x\\"` repeated).  The op `tstream` evaluates recycled capacities on the concrete-buffer model. -/
+def recycledBuf (s : String) : Option Bytes :=
+  match s.splitOn "r" with
+  | [n, f] => do
+    let n ← n.toNat?
+    if f.isEmpty then
+      let junk : Bytes := [34, 92, 123, 125, 35, 61, 32, 97, 10, 34, 120, 92, 34]
+      pure ((List.range n).map (fun i => junk.getD (i % junk.length) 32))
+    else
+      let b ← parseHex f
+      match b with
+      | [x] => pure (List.replicate n x)
+      | _ => none
   | _ => none
 
 def mkReader (cap : Nat) (sched : List Step) (d : Bytes) : Reader :=
@@ -168,8 +185,15 @@ def handle : Handler
       let cap ← parseCap c
       let sched ← parseSched s
       let d ← parseHex h
-      let r := lexAll (fuelFor d + 2 * sched.length) (2 * d.length + 34) (mkReader cap sched d) []
-      pure s!"{joinToks (r.toks.map showTok)} {showOutcome r.out} {r.final.position} {delivered cap d r.final}"
+      match recycledBuf c with
+      | some buf =>
+        -- recycled buffer: the reader over the concrete buffer with its stale contents
+        if cap == 0 then none else
+        let r := blexAll (fuelFor d + 2 * sched.length) (2 * d.length + 34) (BReader.ofBuffer buf sched d) []
+        pure s!"{joinToks (r.toks.map showTok)} {showOutcome r.out} {r.final.prior + r.final.start} {r.final.src.delivered}"
+      | none =>
+        let r := lexAll (fuelFor d + 2 * sched.length) (2 * d.length + 34) (mkReader cap sched d) []
+        pure s!"{joinToks (r.toks.map showTok)} {showOutcome r.out} {r.final.position} {delivered cap d r.final}"
   | ["tretry", c, s, h] => do
       let cap ← parseCap c
       let sched ← parseSched s
